@@ -19,6 +19,9 @@ CONSTANTS NN, Srcs, Snks,
           Family,    \* "digraph": every weighting 0..MaxW of Edges
                      \* "dagflow": sums of path flows (multiplicity 0..MaxW per
                      \*            source->sink path of the acyclic edge set Edges)
+                     \* "random-digraph" / "random-dagflow": the same families sampled
+                     \*            with RandomElement in a first step (only for
+                     \*            TLC -simulate: one random input per behaviour)
           Edges, MaxW,
           Schemes,   \* subset of {"subtract", "bottleneck"}
           NumPaths,  \* set of num_paths values, None = unbounded
@@ -51,12 +54,15 @@ FlowOf(mult) ==
         SumSeq([k \in 1..Len(ps) |-> IF OnPath(ps[k], i - 1, j - 1) THEN mult[ps[k]] ELSE 0])]]
 
 Inputs == IF Family = "digraph" THEN {Mat(f) : f \in [Edges -> 0..MaxW]}
-          ELSE {FlowOf(m) : m \in [DagPaths -> 0..MaxW]}
+          ELSE IF Family = "dagflow" THEN {FlowOf(m) : m \in [DagPaths -> 0..MaxW]}
+          ELSE {<<>>}
+
+Sampled == Family \in {"random-digraph", "random-dagflow"}
 
 Init ==
   /\ caller \in Inputs
   /\ W0 = caller
-  /\ tptflow = TPTFlow(caller, S, T)
+  /\ tptflow = (~Sampled /\ TPTFlow(caller, S, T))
   /\ net = <<>>
   /\ scheme \in Schemes
   /\ numpaths \in NumPaths
@@ -64,7 +70,18 @@ Init ==
   /\ total = 0
   /\ paths = <<>> /\ fluxes = <<>>
   /\ counter = 0 /\ expl = 0
-  /\ pc = "start"
+  /\ pc = IF Sampled THEN "gen" ELSE "start"
+
+(* simulation only: draw the caller's matrix at random *)
+Gen ==
+  /\ pc = "gen"
+  /\ caller' = IF Family = "random-digraph"
+                THEN Mat([e \in Edges |-> RandomElement(0..MaxW)])
+                ELSE FlowOf([p \in DagPaths |-> RandomElement(0..MaxW)])
+  /\ W0' = caller'
+  /\ tptflow' = TPTFlow(caller', S, T)
+  /\ pc' = "start"
+  /\ UNCHANGED <<net, scheme, numpaths, cutoff, total, paths, fluxes, counter, expl>>
 
 (* net_flux = copy.copy(net_flux); total_flux = net_flux[sources, :].sum() *)
 Start ==
@@ -111,14 +128,14 @@ RemoveBn ==
   /\ pc' = "loop"
   /\ UNCHANGED <<caller, W0, tptflow, scheme, numpaths, cutoff, total, paths, fluxes, counter, expl>>
 
-Next == Start \/ PeelNone \/ Peel \/ StopLimit \/ Subtract \/ RemoveBn
+Next == Gen \/ Start \/ PeelNone \/ Peel \/ StopLimit \/ Subtract \/ RemoveBn
 
 Spec == Init /\ [][Next]_vars
 
 (* ---- properties --------------------------------------------------------------- *)
-TypeOK == pc \in {"start", "loop", "check", "done"}
+TypeOK == pc \in {"gen", "start", "loop", "check", "done"}
 
-Started  == pc # "start"
+Started  == pc \notin {"gen", "start"}
 IsTPTFlow == tptflow
 
 NonIncreasing == \A k \in 1..(Len(fluxes) - 1) : fluxes[k + 1] <= fluxes[k]
